@@ -13,9 +13,9 @@ Translated on every run from the source of the IMPORTED module (inspect.getsourc
   - `exec_agg_loop`: its else-branch, when it is inside the fragment (reported, not required),
   - `exec_order_tail`: from the statement `if order_spec is not None:` to the final `return`; that statement must directly
     follow the dispatch `if` (nothing untranslated in between);
-* of the `EvalPivot` branch of `execute_query`: `exec_pivot_fill`, the statements from `pivoted = []` to the return
-  (sort by the first pivot column, groupby, slice assignment of each row's block); the whole branch (`exec_pivot`:
-  keys, header names with lambdas / set comprehension / f-strings) when it is inside the fragment (reported, not required).
+* the WHOLE function `execute_query` (`exec_execute_query`: the dispatch on the class of the compiled statement and the
+  complete PIVOT BY branch), translated by WholeTranslator with the desugaring rules W1-W7 documented there; and, as a
+  statement range of its EvalPivot branch, `exec_pivot_fill` (from `pivoted = []` to the return).
 
 A synthetic function's parameters are the locals of the host function that the selected statements read before
 writing them, in order of first occurrence; free names resolve against the host function's globals and builtins.
